@@ -245,7 +245,21 @@ func (x *pexec) call(budget int64, f func()) (panicked string, hang bool) {
 }
 
 func (x *pexec) budget(arg int) int64 {
-	return 50_000_000 + 4000*int64(x.bc.BufferSize+arg)
+	b := 50_000_000 + 4000*int64(x.bc.BufferSize+arg)
+	if x.spec.Type == "GSAP" || x.spec.Type == "OSAP" {
+		// the suffix-array parsers are superlinear in the data they hold
+		// (measured: up to 2400 ticks per buffered byte for OSAP at 72 KiB);
+		// the budget keeps a factor of about 40 above that
+		held := len(x.S) - x.off + arg
+		if x.wp != nil {
+			held = len(x.t.Input) // a wrapped Parse refills the buffer itself
+		}
+		if held > x.bc.BufferSize {
+			held = x.bc.BufferSize
+		}
+		b += 100_000 * int64(held)
+	}
+	return b
 }
 
 // libPanic reports a panic/hang of a parser call.
